@@ -39,9 +39,9 @@ class Guard:
 
 
 class GuardExtractor:
-    def __init__(self, body):
+    def __init__(self, body, resolve_upvars=False):
         self.b = body
-        self.o = Origins(body)
+        self.o = Origins(body, resolve_upvars=resolve_upvars)
         self._succ_memo = {}
 
     # ---------------- error descriptions
